@@ -81,9 +81,7 @@ def cut_alphabet(u):
 def extra_cases(tier):
     """bounded-exhaustive segmentations of one small replication: every sequence of cuts up to a length"""
     out = []
-    if any(k.get("property") == PID and k.get("signature") == "pause-at-replication-end-cannot-be-resumed"
-           for k in C.load_known().get("findings", [])):
-        out += at_end_cases()       # known finding: make sure it is observed (and noticed when it goes away)
+    out += at_end_cases()       # pauses exactly at the end time (were not resumable before the repair of the guard)
     rng = random.Random(C.seed() * 7919 + 3)
     for clock in (["float"] if tier == "quick" else ["float", "int", "durmin"]):
         u = 60 if clock == "durmin" else S.unit_of(clock)
@@ -124,7 +122,7 @@ def end_finding_registered(pid):
                for k in C.load_known().get("findings", []))
 
 
-END_REPAIRED = False
+END_REPAIRED = True      # /repo has 'fix: a simulation paused exactly at the replication end can be resumed and ended'
 
 
 def stuck_at_end(case, obs, base, end, pid="C03"):
@@ -209,7 +207,7 @@ def oracle(case, obs, ctx, idx):
                 elif (rs, ps) != ("STOPPED", "STARTED"):
                     return ("stopped-run-not-resumable", f"{c}: state after stop() {rs}/{ps}"), facts
             if c[0] in ("runupto", "runuptoincl") and r == "refused" and rs == "STOPPED" and ps == "STARTED" \
-                    and c[1] != "nan" and c[1] >= clk and clk < end:
+                    and c[1] != "nan" and c[1] >= clk and clk <= end:
                 return ("resumable-run-refused", f"{c} refused at clock {clk}/4 in state {rs}/{ps}"), facts
             if c[0] == "step" and r == "ok":
                 facts["step"] = True
